@@ -6,3 +6,31 @@ import re
 
 def never(v):
     return False
+
+
+_ORG_HYDRIDE = re.compile(r"\[(B|C|N|O|P|S|F|Cl|Br|I)H\d?(:\d+)?\]")
+
+
+def c15_hypervalent_hydride(v):
+    """map removal changed only the hydrogen count, and the input contains an
+    organic-subset bracket atom with an explicit H count and nothing else
+    (no charge / isotope / chirality) - the atom the second regex unbrackets"""
+    if v.get("kind") != "molecule_changed_by_map_removal":
+        return False
+    s = v.get("case", {}).get("smiles", "")
+    if not _ORG_HYDRIDE.search(s):
+        return False
+    wc, gc = v.get("want_comp"), v.get("got_comp")
+    if not wc or not gc or wc[1] != gc[1]:
+        return False
+    w = {k: n for k, n in wc[0].items() if k != "H"}
+    g = {k: n for k, n in gc[0].items() if k != "H"}
+    return w == g and wc[0].get("H", 0) > gc[0].get("H", 0)
+
+
+def c19_shipped_duplicates(v):
+    """initial state of the shipped manual rule file; exactly the listed keys"""
+    if v.get("kind") != "initial_state_duplicates" or v.get("db") != "manager":
+        return False
+    allowed = {("formula", "Cl2"), ("smiles", "ClCl"), ("smiles", "N")}
+    return {tuple(d) for d in v.get("duplicates", [])} <= allowed
